@@ -128,6 +128,13 @@ type verif17Env struct {
 	// hookFinalTick (set by whitebox.go) runs right before the final fairness
 	// tick is applied, after the clock was advanced.
 	hookFinalTick func()
+	// hookStarted (set by whitebox.go) runs when Download caller i has parked
+	// its event in the pool.
+	hookStarted func(i int)
+	// answerKnown[i]: whitebox.go saw the event during which caller i was
+	// answered; answerCached[i]: the blob was complete at that event.
+	answerKnown  [2]bool
+	answerCached [2]bool
 
 	results [2]chan error
 	started [2]bool
@@ -176,6 +183,9 @@ func (e *verif17Env) startDownload(i int) {
 		e.results[i] <- err
 	}()
 	e.settle()
+	if e.hookStarted != nil {
+		e.hookStarted(i)
+	}
 }
 
 func (e *verif17Env) startRemove() {
@@ -273,6 +283,11 @@ func (e *verif17Env) finish() {
 		if err == nil {
 			verif.Reach("download-succeeded")
 			verif.Assert("success-only-when-blob-was-cached", e.everComplete)
+			if e.answerKnown[i] {
+				// the blob was in the cache when this caller was answered (not
+				// merely at some earlier time, for some earlier download)
+				verif.Assert("success-only-when-blob-cached-at-answer", e.answerCached[i])
+			}
 		} else {
 			verif.Assert("documented-error", err == ErrTorrentNotFound || err == ErrTorrentTimeout ||
 				err == ErrTorrentRemoved || err == ErrSchedulerStopped)
